@@ -8,6 +8,10 @@ def check(ctx):
     rows.r13_lazy_chain(ctx)
     nh = rows.r13_no_pull_after_handover(ctx)
     run.floor('R13h', nh, 20, 'yielded streams')
+    # a queue between a reader thread and the generator that hands rows on is look-ahead too
+    from rules.generic import anchor_files
+    nq = rows.r13_bounded_queues(ctx, set(anchor_files('C06')))
+    run.floor('R13q', nq, 8, 'modules of row-wise steps')
     for m, why in sorted(rows.OUT_OF_SCOPE_MODULES.items()):
         run.note('out of scope: %s (%s)' % (m, why))
     run.trusted += ['itertools.chain/islice/zip_longest, zip, enumerate, iter, map, filter are lazy',
